@@ -371,7 +371,9 @@ class BaseSubscription:
                 matched.add(event.created_at < query.until)
             if query.tags:
                 for tagname, values in query.tags:
-                    matched.add(all(event.has_tag(tagname, values)))
+                    # the matched value may be the empty string
+                    found, match = event.has_tag(tagname, values)
+                    matched.add(found and match is not None)
             if matched and all(matched):
                 return True
         return False
